@@ -190,6 +190,10 @@ def s2_s3_call(ctx):
         tag = cond_str(p)[:70]
         sz = events_of(p, 'OrderSizer.__call__')
         opt = events_of(p, 'Optimiser.__call__')
+        from ..lib import read_marker
+        if not (len(sz) == 1 and len(opt) == 1) and not read_marker(ctx, p):
+            ctx.undecided('C09.S2', 'one optimiser call and one sizer call per construction [%s]' % tag, fn.site(), '%d optimiser, %d sizer calls; the path has calls this rule did not resolve' % (len(opt), len(sz)))
+            continue
         if not ctx.require(len(sz) == 1 and len(opt) == 1, 'C09.S2', 'one optimiser call and one sizer call per construction [%s]' % tag, fn.site(),
                            '%d optimiser, %d sizer calls' % (len(opt), len(sz)), key='C09.S2|steps'):
             continue
@@ -351,8 +355,7 @@ def s5_sizers(ctx):
                 ctx.undecided('C09.S5', '%s assigns a target to every asset it iterates (no break/continue/filter)' % cname, lp.site, 'what the loop iterates was not traced back to the weights')
                 continue
             live_bodies = [b for b in s['bodies'] if b['path'].outcome != 'raise']
-            if live_bodies and all(not b['writes'] for b in live_bodies) and p.value is not None and p.value[0] == 'comp' and p.value[1] == 'dict' \
-                    and any(s_[0] == 'accum' or (s_[0] == 'comp' and s_[1] == 'list') for g_ in p.value[3] for s_ in T.subterms(g_[1])):
+            if live_bodies and all(not b['writes'] for b in live_bodies):
                 # two passes: the loop only collects (asset, allocation, price, ...) rows, a comprehension over the collected rows builds the target afterwards.
                 # That every iterated asset ends up with a target then depends on the rows collected - not followed by this clause
                 ctx.undecided('C09.S5', '%s assigns a target to every asset it iterates (no break/continue/filter)' % cname, lp.site, 'target built from rows collected first: %s' % fmt(p.value)[:100])
@@ -375,6 +378,9 @@ def s5_sizers(ctx):
             wsrc = uncopy(wsrc)
             if (wsrc[0] == 'attr' and self_chain(wsrc) is not None) or (wsrc[0] == 'sub' and wsrc[1][0] == 'attr' and self_chain(wsrc[1]) is not None):
                 continue        # the remembered normalisation of a one-slot memo: equal to the computing path (which is judged here) when the memo is sound (C10/C11, C18)
+            if any(s_[0] == 'call' and s_[1][0] == 'ext' and (s_[1][1].startswith('numpy.') or s_[1][1] in ('DIVZERO',)) for s_ in T.subterms(wsrc)):
+                ctx.undecided('C09.S5', '%s: normalisation keeps exactly the given assets' % cname, lp.site, 'computed by array arithmetic: %s' % fmt(wsrc)[:100])
+                continue
             okk = wsrc == V('weights') or (wsrc[0] == 'comp' and wsrc[1] == 'dict' and len(wsrc[3]) == 1 and not wsrc[3][0][2] and
                                           fmt(wsrc[3][0][1]) in ('weights.items()', 'weights', 'weights.keys()') and wsrc[2][1][0] == wsrc[3][0][0][0])
             ctx.require(okk, 'C09.S5', '%s: normalisation keeps exactly the given assets' % cname, lp.site, fmt(wsrc)[:120], key='C09.S5|%s|keys' % cname)
